@@ -242,3 +242,42 @@ Fixpoint run_for (t : list kproc) (valid : list Z) (attrs : attrs_t) (b : body) 
     | ROom x' => LOom x'
     end
   end.
+
+(* ===================================================================== *)
+(* 4. _psposix.pid_exists(pid): 'if pid == 0: return b', then try: os.kill(pid, 0) with its handler ladder *)
+(* ===================================================================== *)
+Inductive xcls := XProcessLookupError | XOverflowError | XPermissionError | XOSError.
+Record px_prog := {
+  px_zero : option bool;                           (* if pid == 0: return <bool>   (None = no such statement) *)
+  px_handlers : list (list xcls * bool);           (* except (classes): return <bool>, in source order *)
+  px_else : bool }.                                (* else: return <bool>  (os.kill succeeded) *)
+
+(* what os.kill(pid, 0) raises: ESRCH -> ProcessLookupError, EPERM -> PermissionError, pid beyond pid_t -> OverflowError *)
+Definition raised_by (k : killres) : option xcls :=
+  match k with KOk => None | KEsrch => Some XProcessLookupError | KEperm => Some XPermissionError
+             | KOverflow => Some XOverflowError end.
+(* does 'except h' catch an instance of class r (ProcessLookupError and PermissionError are subclasses of OSError) *)
+Definition catches (h r : xcls) : bool :=
+  match h, r with
+  | XProcessLookupError, XProcessLookupError => true
+  | XOverflowError, XOverflowError => true
+  | XPermissionError, XPermissionError => true
+  | XOSError, XProcessLookupError => true
+  | XOSError, XPermissionError => true
+  | XOSError, XOSError => true
+  | _, _ => false
+  end.
+Fixpoint px_handle (hs : list (list xcls * bool)) (r : xcls) : outcome bool :=
+  match hs with
+  | [] => Exc (match r with XOverflowError => OverflowError | _ => OSError end)     (* propagates *)
+  | (cs, b) :: rest => if existsb (fun c => catches c r) cs then Val b else px_handle rest r
+  end.
+Definition px_run (p : px_prog) (pid : Z) (k : killres) : outcome bool :=
+  match (if pid =? 0 then px_zero p else None) with
+  | Some b => Val b
+  | None =>
+    match raised_by k with
+    | None => Val (px_else p)
+    | Some r => px_handle (px_handlers p) r
+    end
+  end.
